@@ -6,7 +6,9 @@ Definition err_tag (e : err) : N :=
   match e with EMax => 1 | ELabelTooLong => 2 | ENameTooLong => 3 | ECharData => 4 | ETooMany => 5 end.
 
 (* limit, message, implementation outcome: tag 0 = Ok with bytes, otherwise error class *)
-Inductive case := CEnc (limit : N) (m : msg) (tag : N) (out : pbytes).
+Inductive case :=
+| CEnc (limit : N) (m : msg) (tag : N) (out : pbytes)
+| CSrv (tcp : bool) (advertised : option N) (reply_len : N).
 
 Definition check (c : case) : bool :=
   match c with
@@ -15,6 +17,7 @@ Definition check (c : case) : bool :=
       | OBytes b => N.eqb tag 0 && bytes_eqb b (unpack out)
       | OErr e => N.eqb tag (err_tag e)
       end
+  | CSrv tcp adv len => (12 <=? len) && (len <=? server_limit tcp adv)
   end.
 
 Definition bad (cs : list case) : list N := bad_idx check 0 cs.
@@ -26,4 +29,5 @@ Definition show (c : case) :=
       | OBytes b => (0, b)
       | OErr e => (err_tag e, [])
       end
+  | CSrv tcp adv len => (server_limit tcp adv, [])
   end.
